@@ -42,6 +42,21 @@ CHECKS.update({
         engine="E4-scenarios + E3-trace", ref="DESIGN.md 6 C13"),
 })
 
+CHECKS.update({
+    "C01": dict(
+        text="Payload, request id, reply stream and outcome of every invocation are state of spec/Rapid.tla (per-invocation records, rendering service, SendBody). Scenarios run all histories of length <= 2 over {ok, error, oversize, timeout, runtime exit} plus random longer ones with empty / 1-byte / binary / large payloads and client contexts; the harness projection maps received bytes to sha-256 classes and checks ARN, deadline (= arrival + timeout) and client context; TLC validates each trace: the runtime must receive the payload of the invocation in flight, the caller the body posted for its request id, and exactly one InvokeRet per InvokeCall within the time bound.",
+        note=SCEN_NOTE + " Byte equality is decided by the projection, not by TLA+.", technique="TLA+ spec + TLC trace validation of recorded full-stack traces; byte-class projection",
+        engine="E4-scenarios + E3-trace", ref="DESIGN.md 6 C01"),
+    "C06": dict(
+        text="Events watcher (first fatal error store-if-absent, exit channels, CancelFlows once), init/invoke failure handling, cached init error, default error body and the reset that follows are modelled in spec/Rapid.tla. Scenarios enumerate fault points of the runtime {during init, after init/error, after the event, after the response, idle} and of an extension {before register, after register, after its event, after init-error / exit-error report, idle, launch failure} x exit kind {0, non-zero, signal} x 0..2 extensions, each followed by a recovery invocation on new processes; TLC validates failure status, body class and recovery of every trace.",
+        note=SCEN_NOTE, technique="TLA+ spec + TLC trace validation of recorded full-stack traces (fault-point enumeration)",
+        engine="E4-scenarios + E3-trace", ref="DESIGN.md 6 C06"),
+    "C14": dict(
+        text="SendBody in spec/Rapid.tla distinguishes bodies above the limit (413 to the runtime, Function.ResponseSizeTooLarge to the caller, runtime state ResponseSent, no reset) and events above the limit (delivered cut). Scenarios place response sizes {0,1,L/2,L-1,L,L+1,L+4096} and request sizes {L-1,L,L+1,L+4096} (real constant L = 6 MiB + 100) in every position of a sequence; the projection classifies bytes (equal / cut at L / error JSON naming both sizes); TLC validates each trace, in which a Kill/Exec between invocations would be unexplainable.",
+        note=SCEN_NOTE, technique="TLA+ spec + TLC trace validation of recorded full-stack traces; size sweep around the limit",
+        engine="E4-scenarios + E3-trace", ref="DESIGN.md 6 C14"),
+})
+
 NA = {
 }
 
